@@ -1021,7 +1021,7 @@ fn gen_stmt_tok(rng: &mut Rng) -> String {
 }
 
 pub fn generate(rng: &mut Rng, tier: Tier, emit: &mut dyn FnMut(String)) {
-    let scale: u64 = if tier == Tier::Quick { 1 } else { 15 };
+    let scale: u64 = if tier == Tier::Quick { 4 } else { 40 };
 
     // (1) every subset of the six optional QUERY/EXECUTE fields x kind x compression x tracing
     for bits in 0..64u32 {
